@@ -49,7 +49,22 @@ package datalog
 //@ requires t != nil
 //@ modifies nothing
 //@ ensures copy: result != nil && fresh(result) && len(*result) == len(*t) && (forall j int :: 0 <= j && j < len(*t) ==> (*result)[j] == (*t)[j])
-//@ ensures owns_capacity: fresh(arr(*result)) || cap(*result) == len(*result)
+//@ ensures owns_capacity[C08 C19]: fresh(arr(*result)) || cap(*result) == len(*result)
+
+//@ func (t *SymbolTable) IsDisjoint(other *SymbolTable) (result bool)
+//@ serves C07 C08 C10
+//@ requires t != nil && other != nil
+//@ modifies nothing
+//@ loop 0 invariant m != nil && fresh(m) && (forall j int :: { (*t)[j] } 0 <= j && j < #i ==> has(m, (*t)[j])) && (forall q string :: has(m, q) ==> (exists j int :: { (*t)[j] } 0 <= j && j < #i && (*t)[j] == q))
+//@ loop 1 invariant forall k int :: { (*other)[k] } 0 <= k && k < #i ==> !has(m, (*other)[k])
+//@ ensures result == (forall j int, k int :: 0 <= j && j < len(*t) && 0 <= k && k < len(*other) ==> (*t)[j] != (*other)[k])
+
+//@ func (t *SymbolTable) Extend(other *SymbolTable)
+//@ serves C07 C08 C10
+//@ requires t != nil && other != nil
+//@ modifies *t, spare(*t)
+//@ loop 0 invariant tableGrown(*t, old(*t)) && (forall j int :: { (*t)[j] } 0 <= j && j < old(len(*t)) ==> (*t)[j] == old((*t)[j]))
+//@ ensures grown: tableGrown(*t, old(*t)) && (forall j int :: { (*t)[j] } 0 <= j && j < old(len(*t)) ==> (*t)[j] == old((*t)[j]))
 
 // ---------------------------------------------------------------------------
 // evaluation stack
